@@ -7,12 +7,12 @@
         sequence does - for every [n : N], every size of array (no bound anywhere).
     (2) [counter_step] / [counter_history]: what the ideal LIST sequence answers is what
         the COUNTER oracle (Spec/BigIterSpec.v: remaining = L - front - back) answers. *)
-From TD Require Import Base.Prelude Base.Codec Model.Iter Model.View Model.IterRun Model.BigIter
-  Model.BigIterRun Spec.Ideal Spec.BigIterSpec Proofs.RowsSim Proofs.ColSim Proofs.IterHistory
-  Proofs.BigIterRefine.
+From TD Require Import Base.Prelude Base.Codec Model.Iter Model.Flatten Model.View Model.IterRun Model.BigIter
+  Model.BigFlat Model.BigIterRun Spec.Ideal Spec.BigIterSpec Proofs.RowsSim Proofs.ColSim Proofs.FlatSim
+  Proofs.IterHistory Proofs.BigIterRefine Proofs.BigFlatRefine.
 
 Definition bstate_of (s : bstate) : istate :=
-  match s with BRows it => SRows (rows_of it) | BCol it => SCol (col_of it) end.
+  match s with BRows it => SRows (rows_of it) | BCol it => SCol (col_of it) | BCells it => SCells (flat_of it) end.
 Definition byield_of (y : byield) : iyield :=
   match y with
   | BYRow o => YRow (option_map sl_of o)
@@ -29,9 +29,19 @@ Lemma rmap_lift_col r r' :
   rmap col_res r = r' -> rmap bstep_res (blift_col r) = lift_col r'.
 Proof. intros <-. destruct r as [[o it]| |]; reflexivity. Qed.
 
-Theorem bcall_step_ref dbg s c : rmap bstep_res (bcall_step s c) = icall_step dbg (bstate_of s) c.
+Lemma rmap_lift_cells r r' :
+  rmap flat_res r = r' -> rmap bstep_res (blift_cells r) = lift_cells r'.
+Proof. intros <-. destruct r as [[o it]| |]; reflexivity. Qed.
+
+(** the cell cursor's row cursor hands out non-empty rows (true of every state that
+    simulates a sequence: see [sim_yields_nonempty]) *)
+Definition bstate_ok (s : bstate) : Prop :=
+  match s with BCells it => yields_nonempty (bfiter it) | _ => True end.
+
+Theorem bcall_step_ref dbg s c : bstate_ok s ->
+  rmap bstep_res (bcall_step dbg s c) = icall_step dbg (bstate_of s) c.
 Proof.
-  destruct s as [it|it], c as [| |n|n| |i]; cbn [bcall_step icall_step bstate_of].
+  intros Hok. destruct s as [it|it|it], c as [| |n|n| |i]; cbn [bcall_step icall_step bstate_of].
   - apply rmap_lift_rows, rows_next_ref.
   - apply rmap_lift_rows, rows_next_back_ref.
   - apply rmap_lift_rows, rows_nth_ref.
@@ -44,21 +54,53 @@ Proof.
   - apply rmap_lift_col, col_nth_back_ref.
   - cbn. unfold bstep_res. cbn. rewrite col_len_ref. reflexivity.
   - cbn. unfold bstep_res. cbn. rewrite col_index_ref. reflexivity.
+  - apply rmap_lift_cells. unfold flat_next. apply (flat_next_ref it _ Hok).
+  - apply rmap_lift_cells. unfold flat_next_back. apply (flat_next_back_ref it _ Hok).
+  - apply rmap_lift_cells, flat_nth_ref.
+  - apply rmap_lift_cells, flat_nth_back_ref.
+  - cbn. unfold bstep_res. cbn. rewrite flat_len_ref. reflexivity.
+  - reflexivity.
 Qed.
 
-Lemma bstate_not_cells s : is_cells (bstate_of s) = false.
-Proof. destruct s; reflexivity. Qed.
+Lemma i_next_back_in {X} (l : list X) x l' : i_next_back l = (Some x, l') -> In x l.
+Proof.
+  unfold i_next_back. destruct (rev l) as [|y t] eqn:Er; intros H; inversion H; subst.
+  apply in_rev. rewrite Er. left. reflexivity.
+Qed.
+
+Lemma sim_yields_nonempty it rows : rows_sim (rows_of it) rows -> yields_nonempty it.
+Proof.
+  intros Hs. destruct (rows_sim_uniform _ _ Hs) as [Hu Hpos]. split; intros inner it' E.
+  - pose proof (rows_next_ref it) as R. rewrite E in R. cbn [rmap rows_res fst snd option_map] in R.
+    destruct (rows_sim_next _ _ Hs) as [it2 [E2 _]]. rewrite <- R in E2. inversion E2 as [[Hy _]].
+    destruct rows as [|w rows']; cbn [i_next fst] in Hy; [discriminate|]. injection Hy as Hw.
+    assert (Hnc : 0 < rcols (rows_of it)) by (apply Hpos; discriminate).
+    inversion Hu as [|? ? Hlen _]; subst. cbn [sl_of len rows_of rcols] in *. lia.
+  - pose proof (rows_next_back_ref it) as R. rewrite E in R. cbn [rmap rows_res fst snd option_map] in R.
+    destruct (rows_sim_next_back _ _ Hs) as [it2 [E2 _]]. rewrite <- R in E2. inversion E2 as [[Hy _]].
+    destruct (i_next_back rows) as [[w|] l'] eqn:Eb; cbn [fst] in Hy; [|discriminate]. injection Hy as Hw.
+    pose proof (i_next_back_in rows w l' Eb) as Hin.
+    assert (Hnc : 0 < rcols (rows_of it)) by (apply Hpos; intros ->; inversion Hin).
+    pose proof (proj1 (Forall_forall _ _) Hu w Hin) as Hlen. cbn beta in Hlen.
+    rewrite <- Hw in Hlen. cbn [sl_of len] in Hlen. lia.
+Qed.
+
+Lemma sim_state_ok s q : st_sim (bstate_of s) q -> bstate_ok s.
+Proof.
+  destruct s as [it|it|it]; cbn [bstate_ok]; try (intros; exact I).
+  destruct q as [l|l]; cbn [st_sim bstate_of]; [contradiction|].
+  intros [rows [Hs _]]. cbn [flat_of fiter] in Hs. eapply sim_yields_nonempty. exact Hs.
+Qed.
 
 (** one call, any [n : N], any size *)
-Theorem big_step s q c :
-  st_sim (bstate_of s) q ->
-  exists y s' q', bcall_step s c = Ok (y, s') /\ Ideal.ideal_call q c = (byield_of y, q') /\ st_sim (bstate_of s') q'.
+Theorem big_step dbg s q c :
+  st_sim (bstate_of s) q -> call_ok (bstate_of s) c ->
+  exists y s' q', bcall_step dbg s c = Ok (y, s') /\ Ideal.ideal_call q c = (byield_of y, q') /\ st_sim (bstate_of s') q'.
 Proof.
-  intros Hs.
-  destruct (step_sim false (bstate_of s) q c Hs) as [y0 [s0 [q' [E [Ei Hs']]]]].
-  { intros Hc. rewrite bstate_not_cells in Hc. discriminate. }
-  pose proof (bcall_step_ref false s c) as R. rewrite E in R.
-  destruct (bcall_step s c) as [[y s']| |]; cbn in R; try discriminate.
+  intros Hs Hc.
+  destruct (step_sim dbg (bstate_of s) q c Hs Hc) as [y0 [s0 [q' [E [Ei Hs']]]]].
+  pose proof (bcall_step_ref dbg s c (sim_state_ok s q Hs)) as R. rewrite E in R.
+  destruct (bcall_step dbg s c) as [[y s']| |]; cbn in R; try discriminate.
   inversion R as [[Hy Hst]]. exists y, s', q'. split; [reflexivity|]. cbn [fst snd]. rewrite Hy, Hst. split; [exact Ei|exact Hs'].
 Qed.
 
@@ -89,15 +131,20 @@ Fixpoint ideal_enc_calls (q : iseq) (cs : list icall) : list N * iseq :=
   end.
 
 (** every finite history *)
-Theorem big_history cs : forall s q,
-  st_sim (bstate_of s) q ->
-  exists o s', bcalls s cs = Ok (o, s') /\ o = fst (ideal_enc_calls q cs)
+Theorem big_history dbg cs : forall s q,
+  st_sim (bstate_of s) q -> Forall (call_ok (bstate_of s)) cs ->
+  exists o s', bcalls dbg s cs = Ok (o, s') /\ o = fst (ideal_enc_calls q cs)
                /\ st_sim (bstate_of s') (snd (ideal_enc_calls q cs)).
 Proof.
-  induction cs as [|c tl IH]; intros s q Hs.
+  induction cs as [|c tl IH]; intros s q Hs Hok.
   - exists [], s. cbn. split; [reflexivity|]. split; [reflexivity|exact Hs].
-  - destruct (big_step s q c Hs) as [y [s1 [q1 [E [Ei Hs1]]]]].
-    destruct (IH s1 q1 Hs1) as [o [s2 [E2 [Ho Hs2]]]].
+  - inversion Hok as [|? ? Hc Hrest]; subst.
+    destruct (big_step dbg s q c Hs Hc) as [y [s1 [q1 [E [Ei Hs1]]]]].
+    assert (Hok1 : Forall (call_ok (bstate_of s1)) tl).
+    { eapply Forall_impl; [|exact Hrest]. intros a Ha. unfold call_ok in *.
+      pose proof (bcall_step_ref dbg s c (sim_state_ok s q Hs)) as R. rewrite E in R. cbn [rmap bstep_res fst snd] in R.
+      symmetry in R. rewrite (icall_step_kind dbg (bstate_of s) c (byield_of y) (bstate_of s1) R). exact Ha. }
+    destruct (IH s1 q1 Hs1 Hok1) as [o [s2 [E2 [Ho Hs2]]]].
     cbn [bcalls ideal_enc_calls]. rewrite E. cbn [bind]. rewrite E2. cbn [bind fst snd].
     rewrite Ei. destruct (ideal_enc_calls q1 tl) as [o' q2] eqn:Eq. cbn [fst snd] in *.
     exists (enc_byield y ++ o), s2. split; [reflexivity|]. split; [|exact Hs2].
@@ -116,18 +163,22 @@ Theorem big_term s q t :
                        end).
 Proof.
   intros Hs. destruct t as [|[|t]]; [| |reflexivity].
-  - destruct (big_step s q ILen Hs) as [y [s' [q' [E [Ei _]]]]].
-    destruct s as [it|it], q as [l|l]; cbn [st_sim bstate_of] in Hs; try contradiction;
+  - destruct (big_step false s q ILen Hs (fun _ => eq_refl)) as [y [s' [q' [E [Ei _]]]]].
+    destruct s as [it|it|it], q as [l|l]; cbn [st_sim bstate_of] in Hs; try contradiction;
       cbn [bcall_step] in E; inversion E; subst; cbn [Ideal.ideal_call byield_of] in Ei;
       inversion Ei as [[Hn]]; cbn [bterm_step]; first [rewrite Hn | rewrite <- Hn]; rewrite N2Nat.id; reflexivity.
-  - destruct (big_step s q INextBack Hs) as [y [s' [q' [E [Ei _]]]]].
-    destruct s as [it|it], q as [l|l]; cbn [st_sim bstate_of] in Hs; try contradiction;
+  - destruct (big_step false s q INextBack Hs (fun _ => eq_refl)) as [y [s' [q' [E [Ei _]]]]].
+    destruct s as [it|it|it], q as [l|l]; cbn [st_sim bstate_of] in Hs; try contradiction;
       cbn [bcall_step] in E; cbn [bterm_step].
     + unfold blift_rows in E. destruct (brows_next_back it) as [[o it']| |]; cbn [bind] in E; try discriminate.
       inversion E; subst. cbn [bind fst]. cbn [Ideal.ideal_call] in Ei.
       destruct (i_next_back l) as [x l']. inversion Ei as [[Hy Hq]]. cbn [fst].
       rewrite enc_byield_ref. cbn [byield_of]. reflexivity.
     + unfold blift_col in E. destruct (bcol_next_back it) as [[o it']| |]; cbn [bind] in E; try discriminate.
+      inversion E; subst. cbn [bind fst]. cbn [Ideal.ideal_call] in Ei.
+      destruct (i_next_back l) as [x l']. inversion Ei as [[Hy Hq]]. cbn [fst].
+      rewrite enc_byield_ref. cbn [byield_of]. reflexivity.
+    + unfold blift_cells in E. destruct (bflat_next_back it) as [[o it']| |]; cbn [bind] in E; try discriminate.
       inversion E; subst. cbn [bind fst]. cbn [Ideal.ideal_call] in Ei.
       destruct (i_next_back l) as [x l']. inversion Ei as [[Hy Hq]]. cbn [fst].
       rewrite enc_byield_ref. cbn [byield_of]. reflexivity.
@@ -295,24 +346,25 @@ Qed.
 
 (** rows() / rows_mut() of any well-formed binary view, then any call history: the binary
     model never fails and prints exactly what the two-counter oracle prints *)
-Theorem big_rows_end_to_end (v : bview) cs :
+Theorem big_rows_end_to_end dbg (v : bview) cs :
   wf_view (view_of_b v) ->
-  exists it o s', bv_rows v = Ok it /\ bcalls (BRows it) cs = Ok (o, s') /\
+  exists it o s', bv_rows v = Ok it /\ bcalls dbg (BRows it) cs = Ok (o, s') /\
     o = fst (BigIterSpec.ideal_calls (bvrows v) [bvcols v] false (0%N, 0%N) cs).
 Proof.
   intros Hwf. destruct (v_rows_sim _ Hwf) as [it0 [E0 Hsim]].
   pose proof (v_rows_ref v) as R. rewrite E0 in R.
   destruct (bv_rows v) as [it| |]; cbn in R; try discriminate. inversion R as [Hit].
   assert (Hs : st_sim (bstate_of (BRows it)) (QRows (view_rows (view_of_b v)))) by (cbn; rewrite Hit; exact Hsim).
-  destruct (big_history cs (BRows it) _ Hs) as [o [s' [E [Ho _]]]].
+  destruct (big_history dbg cs (BRows it) _ Hs) as [o [s' [E [Ho _]]]].
+  { apply Forall_forall. intros c _ Hc. discriminate. }
   exists it, o, s'. split; [reflexivity|]. split; [exact E|].
   rewrite Ho. destruct (counter_history cs _ _ _ _ _ (cnt_inv_rows (view_of_b v))) as [Hc _].
   rewrite Hc. cbn [view_of_b vrows vcols]. rewrite !N2Nat.id. reflexivity.
 Qed.
 
-Theorem big_col_end_to_end k (v : bview) (c : N) cs :
+Theorem big_col_end_to_end dbg k (v : bview) (c : N) cs :
   wf_view (view_of_b v) -> (c < bvcols v)%N -> (k = KOwned -> bvstride v = bvcols v) ->
-  exists it o s', bv_col k v c = Ok it /\ bcalls (BCol it) cs = Ok (o, s') /\
+  exists it o s', bv_col k v c = Ok it /\ bcalls dbg (BCol it) cs = Ok (o, s') /\
     o = fst (BigIterSpec.ideal_calls (bvrows v) [] true (0%N, 0%N) cs).
 Proof.
   intros Hwf Hc Hk.
@@ -322,8 +374,41 @@ Proof.
   pose proof (v_col_ref k v c) as R. rewrite E0 in R.
   destruct (bv_col k v c) as [it| |]; cbn in R; try discriminate. inversion R as [Hit].
   assert (Hs : st_sim (bstate_of (BCol it)) (QCells (view_col (view_of_b v) (N.to_nat c)))) by (cbn; rewrite Hit; exact Hsim).
-  destruct (big_history cs (BCol it) _ Hs) as [o [s' [E [Ho _]]]].
+  destruct (big_history dbg cs (BCol it) _ Hs) as [o [s' [E [Ho _]]]].
+  { apply Forall_forall. intros c0 _ Hc0. discriminate. }
   exists it, o, s'. split; [reflexivity|]. split; [exact E|].
   rewrite Ho. destruct (counter_history cs _ _ _ _ _ (cnt_inv_col (view_of_b v) (N.to_nat c))) as [Hcn _].
   rewrite Hcn. cbn [view_of_b vrows]. rewrite !N2Nat.id. reflexivity.
+Qed.
+
+(** cells() / cells_mut() of any well-formed binary view - 2^63 cells and more - then any
+    history of next / next_back / nth(n) / nth_back(n) / len, every [n : N], with or without
+    debug assertions: the binary FlattenExact model never fails and prints exactly what the
+    two-counter oracle prints for a sequence of cols * rows cells *)
+From TD Require Import Proofs.CellsGeom.
+
+Lemma cnt_inv_cells v : wf_view v ->
+  cnt_inv (QCells (view_cells v)) (N.of_nat (vcols v) * N.of_nat (vrows v)) [] true (0%N, 0%N).
+Proof.
+  intros Hwf. unfold cnt_inv. cbn [fst snd]. split; [lia|]. split; [reflexivity|]. split; [reflexivity|].
+  rewrite (view_cells_length v Hwf). lia.
+Qed.
+
+Theorem big_cells_end_to_end dbg (v : bview) cs :
+  wf_view (view_of_b v) -> Forall (fun c => is_index c = false) cs ->
+  exists it o s', bv_rows v = Ok it /\ bcalls dbg (BCells (bflat_new it)) cs = Ok (o, s') /\
+    o = fst (BigIterSpec.ideal_calls (bvcols v * bvrows v) [] true (0%N, 0%N) cs).
+Proof.
+  intros Hwf Hcs. destruct (v_cells_sim _ Hwf) as [s0 [E0 Hsim]].
+  unfold v_cells in E0. pose proof (v_rows_ref v) as R.
+  destruct (bv_rows v) as [it| |]; cbn [rmap] in R; rewrite <- R in E0; cbn [bind] in E0; try discriminate.
+  inversion E0 as [Hs0].
+  assert (Hs : st_sim (bstate_of (BCells (bflat_new it))) (QCells (view_cells (view_of_b v)))).
+  { cbn [st_sim bstate_of]. unfold flat_of, bflat_new. cbn [bfiter bffront bfback option_map].
+    unfold flat_new in Hs0. rewrite Hs0. exact Hsim. }
+  destruct (big_history dbg cs (BCells (bflat_new it)) _ Hs) as [o [s' [E [Ho _]]]].
+  { eapply Forall_impl; [|exact Hcs]. intros c Hc _. exact Hc. }
+  exists it, o, s'. split; [reflexivity|]. split; [exact E|].
+  rewrite Ho. destruct (counter_history cs _ _ _ _ _ (cnt_inv_cells (view_of_b v) Hwf)) as [Hc _].
+  rewrite Hc. cbn [view_of_b vrows vcols]. rewrite !N2Nat.id. reflexivity.
 Qed.
